@@ -342,3 +342,40 @@ PROPS["C08"] = {
     "quick": {"stages": [{"kind": "replay"}, {"kind": "rc", "procs": 6, "cases": 8, "maxlen": 300}]},
     "thorough": {"stages": [{"kind": "replay"}, {"kind": "rc", "procs": 8, "cases": 120, "maxlen": 300}]},
 }
+
+PROPS["C06"] = {
+    "source": "c06_writes.cc",
+    "level": "fault_enumeration",
+    "fuzz": False,
+    "rule": ("one case = (write list, issuer, fault script): 1-8 writes, each a memory buffer (Peer::send / Transport::asyncWrite) of 1..300000 bytes or a file (asyncWrite(FileBuffer)) of "
+             "0..300000 bytes, every buffer filled with a self-describing pattern; issued from the loop thread (inside onRequest), from one foreign thread, or from two foreign threads; and for "
+             "the successive socket write calls on that connection a generated sequence over {pass, accept at most k bytes, would-block (in runs)} applied through the send/sendfile hooks. A raw "
+             "client reads the stream. Oracle: the stream is exactly the concatenation of the buffers in issue order (for two issuers: an interleaving of whole buffers preserving each issuer's "
+             "order); each promise settles at most once, is fulfilled with the buffer's full size, not before the socket had accepted its last byte, and all are fulfilled in the end. "
+             "Non-trivial = >=2 writes and the script contained a short write followed later by a would-block; distinct = hash of the case."),
+    "engine": "rapidcheck",
+    "technique": "property-based testing (rapidcheck) with injected faults: generated write lists x generated short-write / would-block scripts applied through a guarded socket-call indirection; oracle = byte-exact stream reconstruction and promise accounting",
+    "level_text": "Placements of short writes and would-block results over the successive socket calls are generated per case and applied to the real transport on a live connection. Not exhaustive: placements are sampled.",
+    "level_note": "A simulated would-block leaves the real socket writable, so epoll reports it writable again at once: fine for data integrity and promise semantics (this check), not for starvation (C07 uses real back-pressure). Needs the PISTACHE_VERIF_HOOKS indirection in transport.cc.",
+    "assumptions": ["the send/sendfile hooks see every socket write of the transport"],
+    "quick": {"stages": [{"kind": "replay"}, {"kind": "rc", "procs": 6, "cases": 250, "maxlen": 300}]},
+    "thorough": {"stages": [{"kind": "replay"}, {"kind": "rc", "procs": 8, "cases": 5000, "maxlen": 300}]},
+}
+
+PROPS["C07"] = {
+    "source": "c07_blocked_peer.cc",
+    "level": "fault_enumeration",
+    "fuzz": False,
+    "rule": ("one case on a one-worker endpoint: connection A (4 KiB receive window; its server side gets a 4 KiB send buffer through the socket hook) asks for 1-4 responses of 50-500 KiB and "
+             "stops reading for a generated 1.6-3.0 s, so 1..k writes are pending on a socket that really returns EAGAIN; 1-3 other connections send 1-4 small requests each at generated offsets "
+             "before, during and after the stall. Oracle: every other request is answered correctly within 1 s; the socket write attempts on A between its first would-block and the release "
+             "stay <= 4+2k (counted by the hook); after the release A receives exactly the pending responses, in order. Non-trivial = at least one request issued strictly inside the stall with "
+             "its 1 s bound ending before the release, while writes were pending; distinct = hash of the case. oracle_subchecks = cases run."),
+    "engine": "rapidcheck",
+    "technique": "property-based testing (rapidcheck) with real kernel back-pressure as the injected fault: generated stall durations, pending-write counts and request placements; oracle = latency bound on other connections, hook-counted write attempts, byte-exact delivery after release",
+    "level_text": "Placements and durations of a real would-block period relative to requests on other connections of the same worker are generated. Sampled, not exhaustive.",
+    "level_note": "Real back-pressure, not a simulated EAGAIN (with a simulated one a correct implementation would be woken continuously and the attempt bound would be a false alarm). Latency verdicts follow the 3x replay rule; the attempt-count verdict is not time-dependent.",
+    "assumptions": ["a 4 KiB SO_SNDBUF/SO_RCVBUF pair fills after a few KiB so that the remaining hundreds of KiB stay pending"],
+    "quick": {"stages": [{"kind": "replay"}, {"kind": "rc", "procs": 6, "cases": 4, "maxlen": 200}]},
+    "thorough": {"stages": [{"kind": "replay"}, {"kind": "rc", "procs": 8, "cases": 60, "maxlen": 200}]},
+}
